@@ -1,4 +1,5 @@
 import ZarrsModel.Model.Iter
+import ZarrsModel.Model.IterApi
 import ZarrsModel.Driver.Proto
 /- driver handlers for C09: compute the model outcome of each request in canonical text -/
 namespace Zarrs.DriverC09
@@ -44,6 +45,130 @@ def showLeaves (show1 : List Idx → String) (t : SplitTree) (it : Iter) : Strin
 
 /-- the checked constructors guard: rank and bounds -/
 def guardShape (s : Subset) (arr : Shape) : Bool := s.inboundsShape arr
+
+/-! ### API-coverage additions (explicit index ranges, `_unchecked` variants, remaining constructors) -/
+
+def parseBnd (s : String) : Option Bnd :=
+  if s == "u" then some .unb
+  else if s.startsWith "i" then (s.drop 1).toNat?.map Bnd.incl
+  else if s.startsWith "x" then (s.drop 1).toNat?.map Bnd.excl
+  else none
+
+def showRanges (rs : List (Nat × Nat)) : String :=
+  if rs.isEmpty then "~" else ";".intercalate (rs.map (fun p => toString p.1 ++ ":" ++ toString p.2))
+
+def evens {α} : List α → List α
+  | [] => []
+  | [x] => [x]
+  | x :: _ :: rest => x :: evens rest
+
+def linOf (arr : Shape) (xs : List Idx) : String := showNl (xs.map (fun i => ravel i arr))
+
+def handleApi (l : Line) (verb : String) : Option String := do
+  match verb with
+  | "irange" =>
+    let s : Subset := ⟨← l.nl "start", ← l.nl "shape"⟩
+    let lo ← parseBnd (← l.get "lo"); let hi ← parseBnd (← l.get "hi")
+    let d ← l.get "dirs"
+    let it := Iter.newBounds s lo hi
+    pure ("val " ++ showDrive showNll it (dirsOf d) ++ " empty=" ++ showBool (it.len == 0) ++
+      " plen=" ++ toString it.len ++ " optlen=" ++ toString it.len ++ " count=" ++ toString it.items.length)
+  | "irangesplit" =>
+    let s : Subset := ⟨← l.nl "start", ← l.nl "shape"⟩
+    let lo ← parseBnd (← l.get "lo"); let hi ← parseBnd (← l.get "hi")
+    let (t, _) ← parseTree ((← l.get "tree").splitOn ".")
+    pure ("val " ++ showLeaves showNll t (Iter.newBounds s lo hi))
+  | "par" =>
+    let s : Subset := ⟨← l.nl "start", ← l.nl "shape"⟩
+    let lo ← parseBnd (← l.get "lo"); let hi ← parseBnd (← l.get "hi")
+    -- predicted from the specification slice of the enumeration (Props/C09Api `newBounds_items`)
+    let xs := s.indicesRange lo.lo (hi.hi s.numElements)
+    pure ("val " ++ showNll xs ++ " even=" ++ showNll (evens xs) ++ " count=" ++ toString xs.length)
+  | "parchunks" =>
+    let s : Subset := ⟨← l.nl "start", ← l.nl "shape"⟩
+    let cs ← l.nl "cs"
+    let xs := (s.chunks cs).map (·.1)
+    let n := toString xs.length
+    pure ("val " ++ showChunkItems cs xs ++ " plen=" ++ n ++ " optlen=" ++ n ++ " count=" ++ n)
+  | "ulin" =>
+    let s : Subset := ⟨← l.nl "start", ← l.nl "shape"⟩
+    let arr ← l.nl "arr"; let d ← l.get "dirs"
+    pure ("val " ++ showDrive (linOf arr) (Iter.new s) (dirsOf d) ++ " empty=" ++ showBool (s.numElements == 0))
+  | "ucontig" =>
+    let s : Subset := ⟨← l.nl "start", ← l.nl "shape"⟩
+    let arr ← l.nl "arr"; let d ← l.get "dirs"
+    let c := s.contiguous arr
+    let r := toString c.run
+    pure ("val run=" ++ r ++ " runusize=" ++ r ++ " itrun=" ++ r ++ " itrunusize=" ++ r ++ " " ++
+      showDrive showNll (Iter.new c.starts) (dirsOf d) ++ " empty=" ++ showBool (c.starts.numElements == 0))
+  | "ucontiglin" =>
+    let s : Subset := ⟨← l.nl "start", ← l.nl "shape"⟩
+    let arr ← l.nl "arr"; let d ← l.get "dirs"
+    let c := s.contiguous arr
+    let r := toString c.run
+    pure ("val run=" ++ r ++ " runusize=" ++ r ++ " itrun=" ++ r ++ " itrunusize=" ++ r ++ " " ++
+      showDrive (linOf arr) (Iter.new c.starts) (dirsOf d) ++ " empty=" ++ showBool (c.starts.numElements == 0))
+  | "ubyteranges" =>
+    let s : Subset := ⟨← l.nl "start", ← l.nl "shape"⟩
+    let arr ← l.nl "arr"; let es ← l.nat "es"
+    pure ("val " ++ showRanges (s.byteRangesUnchecked arr es))
+  | "uextract" =>
+    let s : Subset := ⟨← l.nl "start", ← l.nl "shape"⟩
+    let arr ← l.nl "arr"; let n ← l.nat "n"
+    pure ("val " ++ showNl (s.extract arr (List.range n)))
+  | "uchunks" =>
+    let s : Subset := ⟨← l.nl "start", ← l.nl "shape"⟩
+    let cs ← l.nl "cs"; let d ← l.get "dirs"
+    let it := Iter.new (s.chunkBox cs)
+    pure ("val " ++ showDrive (showChunkItems cs) it (dirsOf d) ++ " empty=" ++ showBool (it.len == 0))
+  | "uoverlap" =>
+    let a : Subset := ⟨← l.nl "astart", ← l.nl "ashape"⟩
+    let b : Subset := ⟨← l.nl "bstart", ← l.nl "bshape"⟩
+    let o := a.overlap b
+    pure ("val " ++ showSubset o ++ " empty=" ++ showBool o.isEmpty)
+  | "ubound" =>
+    let s : Subset := ⟨← l.nl "start", ← l.nl "shape"⟩
+    pure ("val " ++ showSubset (s.bound (← l.nl "end")))
+  | "urelto" =>
+    let s : Subset := ⟨← l.nl "start", ← l.nl "shape"⟩
+    let o ← l.nl "o"
+    if s.relativeToUnderflows o then pure "panic" else pure ("val " ++ showSubset (s.relativeTo o))
+  | "uctor" =>
+    let a ← l.nl "a"; let b ← l.nl "b"
+    pure ("val inc=" ++ showSubset (Subset.ofStartEndInc a b) ++ " exc=" ++ showSubset (Subset.ofStartEndExc a b) ++
+      " ss=" ++ showSubset ⟨a, b⟩)
+  | "misc" =>
+    let s : Subset := ⟨← l.nl "start", ← l.nl "shape"⟩
+    let rs := s.toRanges
+    let rtxt := if rs.isEmpty then "~" else ";".intercalate (rs.map (fun p => toString p.1 ++ ".." ++ toString p.2))
+    let disp := "[" ++ ", ".intercalate (rs.map (fun p => toString p.1 ++ ".." ++ toString p.2)) ++ "]"
+    pure ("val ranges=" ++ rtxt ++ " viaranges=" ++ showSubset (Subset.ofRanges rs) ++ " usize=" ++ showNl s.shape ++
+      " nusize=" ++ toString s.numElements ++ " withshape=" ++ showSubset (Subset.withShape s.shape) ++
+      " newempty=" ++ showSubset (Subset.newEmpty s.rank) ++ " disp=" ++ disp)
+  | "iters" =>
+    let s : Subset := ⟨← l.nl "start", ← l.nl "shape"⟩
+    let arr ← l.nl "arr"; let cs ← l.nl "cs"
+    let c := s.contiguous arr
+    let ok := guardShape s arr
+    let sb (b : Bool) := showBool b
+    let ind := toString s.numElements ++ "/" ++ sb (s.numElements == 0) ++ "/" ++ showNll (Iter.new s).items
+    let lin := if !ok then "err" else
+      toString s.numElements ++ "/" ++ sb (s.numElements == 0) ++ "/" ++ showNl (s.linearised arr)
+    let cn := c.starts.numElements
+    let contig := if !ok then "err" else
+      toString cn ++ "/" ++ sb (cn == 0) ++ "/" ++ toString c.run ++ "/" ++ showNll (s.contiguousIndices arr)
+    let contiglin := if !ok then "err" else
+      toString cn ++ "/" ++ sb (cn == 0) ++ "/" ++ toString c.run ++ "/" ++ showNl (s.contiguousLinearised arr)
+    let chs := (s.chunks cs).map (·.1)
+    let chunks := if cs.length != s.rank then "err" else
+      toString chs.length ++ "/" ++ sb (chs.length == 0) ++ "/" ++ showChunkItems cs chs
+    let unchecked := if ok && cs.length == s.rank then
+      showNl (s.linearised arr) ++ "/" ++ showNll (s.contiguousIndices arr) ++ "/" ++
+        showNl (s.contiguousLinearised arr) ++ "/" ++ showChunkItems cs chs
+      else "skip"
+    pure ("val ind=" ++ ind ++ " lin=" ++ lin ++ " contig=" ++ contig ++ " contiglin=" ++ contiglin ++
+      " chunks=" ++ chunks ++ " unchecked=" ++ unchecked)
+  | _ => none
 
 def handle (l : Line) : Option String := do
   let verb ← l.verbs[1]?
@@ -139,6 +264,6 @@ def handle (l : Line) : Option String := do
     let exc := if bad then "err" else showSubset (Subset.ofStartEndExc a b)
     let ss := if a.length != b.length then "err" else showSubset ⟨a, b⟩
     pure ("val inc=" ++ inc ++ " exc=" ++ exc ++ " ss=" ++ ss)
-  | _ => none
+  | other => handleApi l other
 
 end Zarrs.DriverC09
